@@ -214,6 +214,7 @@ def run_replace(ctx, p, given=None, tag=''):
             q[m] = IdQ()
         return [tuple(t) for t in idx], np.array(mpos, dtype=float), q
 
+    atol_v = ctx.real('atol', 0.001, 0.5)        # the tolerance is only forwarded here (the search itself is stubbed): it must arrive unchanged
     f = p.get('fraction', 1.0)
     if f == 'sym':
         f = ctx.real('fraction', 0, 1, hi_strict=False)
@@ -227,7 +228,7 @@ def run_replace(ctx, p, given=None, tag=''):
     try:
         try:
             result, count = M_mod.replace_pattern_in_structure(
-                st, search, replace, replace_fraction=f, return_num_matches=True,
+                st, search, replace, replace_fraction=f, return_num_matches=True, atol=atol_v,
                 replace_all=bool(p.get('replace_all')), ignore_atoms_should_not_be_deleted_twice=bool(p.get('ignore')))
         except M_mod.AtomsShouldNotBeDeletedTwice:
             raised = 'overlap'
@@ -244,7 +245,7 @@ def run_replace(ctx, p, given=None, tag=''):
                     break
     return dict(st=st, sp=sp, search=search, replace=replace, srch_d=srch_d, repl_d=repl_d, idx=idx, mpos=mpos, f=f,
                 sampled=rec.sampled is not None, selected=selected, shared=shared, raised=raised, result=result,
-                count=count, snap=snap, calls=calls, N=N, M=M, n=n)
+                count=count, snap=snap, calls=calls, N=N, M=M, n=n, atol=atol_v)
 
 
 def layout(R):
